@@ -31,7 +31,7 @@ def run(rep, facts, tier):
     fx = facts['dev']
     rep.rule('C04.R1', 'operands are never modified: buffer mutation only through data_mut (COW) on an owned receiver; range of a borrowed receiver written only by read')
     rep.rule('C04.R2', 'length-relative and accumulating buffer writes are dominated by normalisation of the buffer to the value')
-    rep.rule('C04.R3', 'who reads raw buffer bytes: only the offset-aware primitives (bit iterator, iter8/cut_bits, to_uint) and slice() behind its alignment test')
+    rep.rule('C04.R3', 'who reads raw buffer bytes: only the two re-aligning iterators (bit iterator, iter8/cut_bits) and slice() behind its alignment test; the number decoders read through iter8')
     rep.rule('C04.R4', 'positions handed to the public methods are relative to the value: a range bound computed from a position argument adds range.start')
     check_raw_readers(rep, fx)
     check_relative_positions(rep, fx)
@@ -190,7 +190,6 @@ RAW_READERS = {
     '<bitstr::Bitstr as core::clone::Clone>::clone': 'shares the buffer, reads no byte',
     'bitstr::Bitstr::detach': 'reads the reference count only (C03.R7)',
     'bitstr::Bitstr::slice': '@aligned',
-    'bitstr::Bitstr::to_uint': '@cut_bits',
     "<bitstr::Bits<'a> as core::iter::traits::iterator::Iterator>::next": 'bit-addressed: data[pos / 8] masked by pos % 8',
     "<bitstr::Iter8<'a> as core::iter::traits::iterator::Iterator>::next": '@cut_bits',
 }
@@ -354,7 +353,7 @@ def check_relative_positions(rep, fx):
     rep.add('C04.R4', 'C04.R4:buffer-positions-stay-inside-the-module', not outside,
             '%d uses of start() / end() / raw ranges, all inside bitstr.rs' % n_abs if not outside else '%d uses outside bitstr.rs' % len(outside),
             'bitstr::Bitstr::start', None, nontrivial=False)
-    rep.floor('C04.R4 uses of the absolute position accessors', n_abs, 10)
+    rep.floor('C04.R4 uses of the absolute position accessors', n_abs, 4)
     # byte export through the host API: xeh_bitstr_bytes can only lend out bytes of the value's own buffer (slice(), C03.R6), so a
     # cell that reaches C has to own byte-aligned storage - wherever the API boxes a cell, a misaligned bit-string in it has been
     # replaced by a detached copy on the way
